@@ -258,7 +258,7 @@ def simplify(t):
             return ('un', 'Not', args[0])
         if ls in CMP_CALLS and len(args) == 2 and ('PartialEq' in name or 'PartialOrd' in name or 'cmp::' in name):
             return ('bin', CMP_CALLS[ls], args[0], args[1])
-        return ('call', name, args, t[3])
+        return ('call', name, args) + t[3:]
     if k == 'index':
         return ('index', simplify(t[1]), simplify(t[2]))
     if k == 'variant':
@@ -315,7 +315,7 @@ def deep_peel(t, **kw):
     if k == 'un':
         return ('un', t[1], deep_peel(t[2], **kw))
     if k == 'call':
-        return ('call', t[1], tuple(deep_peel(a, **kw) for a in t[2]), t[3])
+        return ('call', t[1], tuple(deep_peel(a, **kw) for a in t[2])) + t[3:]
     if k == 'agg':
         return ('agg', t[1], t[2], tuple(deep_peel(a, **kw) for a in t[3]))
     if k == 'discr':
@@ -661,3 +661,19 @@ def variant_facts_at(body, b):
         if r is not None:
             out.append(r)
     return out
+
+
+def agg_field(facts, t, field):
+    """operand tree of the named field of an ADT aggregate literal, or None"""
+    if not (isinstance(t, tuple) and t and t[0] == 'agg' and t[1] == 'adt'):
+        return None
+    path, vname = t[2].rsplit('::', 1)
+    adt = facts.adts.get(path)
+    if adt is None:
+        return None
+    for v in adt['variants']:
+        if v['name'] == vname:
+            for i, f in enumerate(v['fields']):
+                if f['name'] == field and i < len(t[3]):
+                    return t[3][i]
+    return None
